@@ -21,7 +21,7 @@ RULE = (
     "through an intermediate composite) of a container that has further fields after the nested object. Containers built "
     "with D and with D' must have equal bit length sets, extents and field offsets (compared live and against R-layout); "
     "values written with either revision are read with the other and compared with the structural projection (common "
-    "fields kept, writer-unknown fields default, reader-unknown fields skipped, everything after the nested object equal). "
+    "fields kept, writer-unknown fields default, reader-unknown fields skipped, everything after the nested object equal); layouts also compared on pickled / copied type graphs. "
     "Non-trivial: container has >=1 field after the nested object; distinct by (universe, value)."
 )
 ASSUMPTIONS = ["R-codec / R-layout are the trusted references", "D is a structure (appending union variants is outside the statement)"]
@@ -147,6 +147,25 @@ def project_composite(cd, i_from, i_to, v):
     return out
 
 
+def layout_unaffected(ctx, Cold, Cnew, lay, i_old, case, label):
+    ctx.mon("container-layout")
+    diff = blscmp.live_difference(ctx, Cold.bit_length_set, Cnew.bit_length_set)
+    if diff:
+        ctx.violation("C14/container-bls", "%s: container bit length sets differ between revisions: %s" % (label, diff), case)
+    blscmp.compare(ctx, Cnew.bit_length_set, lay.definition(i_old)["tree"], "C14/container-bls-ref", "%s: container(new) vs layout(old)" % label, case)
+    if Cold.extent != Cnew.extent:
+        ctx.violation("C14/container-extent", "%s: container extents differ: %r vs %r" % (label, Cold.extent, Cnew.extent), case)
+    fo, fn = list(Cold.iterate_fields_with_offsets()), list(Cnew.iterate_fields_with_offsets())
+    if [f.name for f, _ in fo] != [f.name for f, _ in fn]:
+        ctx.violation("C14/offsets", "%s: field lists differ" % label, case)
+    else:
+        for (f1, o1), (f2, o2) in zip(fo, fn):
+            ctx.mon("offsets")
+            diff = blscmp.live_difference(ctx, o1, o2)
+            if diff:
+                ctx.violation("C14/offsets", "%s: offset of field %r differs between revisions: %s" % (label, f1.name, diff), case)
+
+
 def run_case(ctx, pydsdl, mon, u, i_old, i_new, text_ok, seed, nvalues, workdir):
     case = {"universe": u, "i_old": i_old, "i_new": i_new, "text_ok": text_ok, "seed": seed, "nvalues": nvalues}
     mon.bind(ctx, case)
@@ -162,22 +181,15 @@ def run_case(ctx, pydsdl, mon, u, i_old, i_new, text_ok, seed, nvalues, workdir)
     Cold, Cnew = objs[i_old], objs[i_new]
     lay = Layout(u)
     # 1. container layout is unaffected by the revision
-    ctx.mon("container-layout")
-    diff = blscmp.live_difference(ctx, Cold.bit_length_set, Cnew.bit_length_set)
-    if diff:
-        ctx.violation("C14/container-bls", "container bit length sets differ between revisions: %s" % diff, case)
-    blscmp.compare(ctx, Cnew.bit_length_set, lay.definition(i_old)["tree"], "C14/container-bls-ref", "container(new) vs layout(old)", case)
-    if Cold.extent != Cnew.extent:
-        ctx.violation("C14/container-extent", "container extents differ: %r vs %r" % (Cold.extent, Cnew.extent), case)
-    fo, fn = list(Cold.iterate_fields_with_offsets()), list(Cnew.iterate_fields_with_offsets())
-    if [f.name for f, _ in fo] != [f.name for f, _ in fn]:
-        ctx.violation("C14/offsets", "field lists differ", case)
-    else:
-        for (f1, o1), (f2, o2) in zip(fo, fn):
-            ctx.mon("offsets")
-            diff = blscmp.live_difference(ctx, o1, o2)
-            if diff:
-                ctx.violation("C14/offsets", "offset of field %r differs between revisions: %s" % (f1.name, diff), case)
+    layout_unaffected(ctx, Cold, Cnew, lay, i_old, case, "as built")
+    if seed % 2 == 0:
+        # ... and stays so when the model objects are handed on (pickle round trip of the whole graph / one by one, copies)
+        for label, cs in GT.copies(objs, random.Random(seed ^ 0xC0B1)):
+            ctx.mon("copies")
+            ctx.cls("copy-" + label)
+            layout_unaffected(ctx, cs[i_old], cs[i_new], lay, i_old, dict(case, copy=label), label)
+            if seed % 4 == 0:
+                Cold, Cnew = cs[i_old], cs[i_new]   # the wire experiments below use the copies
     # 2. wire compatibility in both directions
     cd = RC.Codec(u)
     if GV.fixed_elements(cd, ("ref", i_new)) > 2000:
